@@ -308,3 +308,328 @@ def v2(prog):
     if n < 6:
         raise Broken("only %d family-valued constant producers found (floor 6)" % n)
     return inst, findings
+
+
+# ---------------------------------------------------------------------------
+# C07: F1 unknown means error, F3/F4/F5 dispatch tables, E1 no libdw error dropped
+
+FORM_CLASS = {}
+for _n in ("string", "strp", "line_strp", "strp_sup", "strx", "strx1", "strx2", "strx3", "strx4", "GNU_strp_alt", "GNU_str_index"):
+    FORM_CLASS["DW_FORM_" + _n] = "string"
+for _n in ("ref_addr", "ref1", "ref2", "ref4", "ref8", "ref_udata", "ref_sup4", "ref_sup8", "GNU_ref_alt", "ref_sig8"):
+    FORM_CLASS["DW_FORM_" + _n] = "reference"
+FORM_CLASS["DW_FORM_sdata"] = "signed"
+FORM_CLASS["DW_FORM_udata"] = "unsigned"
+for _n in ("addr", "addrx", "addrx1", "addrx2", "addrx3", "addrx4", "GNU_addr_index"):
+    FORM_CLASS["DW_FORM_" + _n] = "address"
+for _n in ("flag", "flag_present"):
+    FORM_CLASS["DW_FORM_" + _n] = "flag"
+for _n in ("data1", "data2", "data4", "data8", "data16", "block", "block1", "block2", "block4", "sec_offset", "implicit_const"):
+    FORM_CLASS["DW_FORM_" + _n] = "dependent"      # class decided by the attribute / type
+for _n in ("exprloc", "loclistx"):
+    FORM_CLASS["DW_FORM_" + _n] = "location"
+FORM_CLASS["DW_FORM_rnglistx"] = "ranges"
+FORM_CLASS["DW_FORM_indirect"] = "never-seen"      # libdw resolves it
+
+ATE_SIGN = {"DW_ATE_signed": "signed", "DW_ATE_signed_char": "signed", "DW_ATE_unsigned": "unsigned",
+            "DW_ATE_unsigned_char": "unsigned", "DW_ATE_address": "unsigned", "DW_ATE_UTF": "unsigned",
+            "DW_ATE_boolean": "bool"}
+
+AT_ENUM_PREFIX = {"DW_AT_language": "DW_LANG_", "DW_AT_inline": "DW_INL_", "DW_AT_encoding": "DW_ATE_",
+                  "DW_AT_accessibility": "DW_ACCESS_", "DW_AT_visibility": "DW_VIS_", "DW_AT_virtuality": "DW_VIRTUALITY_",
+                  "DW_AT_identifier_case": "DW_ID_", "DW_AT_calling_convention": "DW_CC_", "DW_AT_ordering": "DW_ORD_",
+                  "DW_AT_decimal_sign": "DW_DS_", "DW_AT_address_class": "DW_ADDR_", "DW_AT_endianity": "DW_END_",
+                  "DW_AT_defaulted": "DW_DEFAULTED_"}
+
+
+def _classify_decoder(stmts):
+    """what a case group of at_value / handle_encoding_data does"""
+    fns = [c.get("fn") for s in stmts for c in calls(s)]
+    mk = [c.get("f", "") for s in stmts for c in calls(s) if c.get("f", "").startswith("std::make_unique<")]
+    has_throw = any(x.get("k") == "throw" for s in stmts for x in walk(s))
+    strs = [x["v"] for s in stmts for x in walk(s) if x.get("k") == "str"]
+    if "atval_signed" in fns:
+        return "signed"
+    if "atval_addr" in fns:
+        return "address"
+    if "dwarf_formflag" in fns:
+        return "flag"
+    if "dwarf_formstring" in fns:
+        return "string"
+    if "dwarf_formref_die" in fns:
+        return "reference"
+    if "handle_at_dependent_value" in fns:
+        return "dependent"
+    if "die_ranges" in fns:
+        return "ranges"
+    if any("locexpr_producer" in m for m in mk):
+        return "location"
+    if "atval_unsigned_with_domain" in fns:
+        doms = [short(c["a"][1]) for s in stmts for c in calls(s) if c.get("fn") == "atval_unsigned_with_domain"]
+        return "bool" if any("bool_constant_dom" in d for d in doms) else "unsigned-with-domain"
+    if "atval_unsigned" in fns:
+        return "unsigned"
+    if has_throw:
+        return "error"
+    if any("unhandled" in s.lower() for s in strs) and "operator<<" in fns:
+        return "diagnostic"
+    if "abort" in fns:
+        return "never-seen"
+    rets = [x for s in stmts for x in walk(s) if x.get("k") == "return"]
+    if rets and all(isinstance(unwrap(r.get("e")), dict) and (unwrap(r["e"]).get("k") == "null" or short(r["e"]) in ("nullptr", "std::unique_ptr{nullptr}")) for r in rets):
+        return "not-decoded"
+    return "unknown"
+
+
+def _enum_names(prog, prefix):
+    out = {}
+    for e in prog.enums.values():
+        if e["file"] == "/usr/include/dwarf.h":
+            for c in e["consts"]:
+                if c["n"].startswith(prefix):
+                    out.setdefault(c["v"], []).append(c["n"])
+    if not out:
+        raise Broken("no %s* enumerators found in the system dwarf.h" % prefix)
+    return out
+
+
+def f1(prog):
+    from r_scope import switch_groups
+    from zw import is_null_stack_expr
+    inst, findings = [], []
+    for q, guard in (("at_value", None), ("(anonymous namespace)::handle_at_dependent_value", None)):
+        f = prog.func_opt(q)
+        if f is None:
+            raise Broken("anchor %s vanished" % q)
+        sws = [x for x in f["body"]["s"] if x.get("k") == "switch"]
+        if len(sws) != 1:
+            raise Broken("%s no longer dispatches with one top-level switch (unmodelled shape)" % q)
+        key = "F1:" + q.split("::")[-1]
+        probs = []
+        for labels, stmts in switch_groups(sws[0]):
+            if "default" in labels:
+                cls = _classify_decoder(stmts)
+                if cls not in ("error", "never-seen"):
+                    probs.append("the `default` label of %s decodes unknown codes as `%s` instead of reporting them" % (q, cls))
+        last = f["body"]["s"][-1]
+        ends_in_throw = last.get("k") == "throw" or (last.get("k") == "call" and last.get("fn") == "abort")
+        if not ends_in_throw:
+            probs.append("%s no longer ends in a throw: a code that matches no case falls off into `%s`" % (q, last.get("k")))
+        inst.append((key, {"ends_in_throw": ends_in_throw}))
+        for p in probs:
+            findings.append({"key": key, "where": f["l"], "msg": p, "detail": None})
+    f = prog.func_opt("(anonymous namespace)::handle_encoding_data")
+    if f is None:
+        raise Broken("anchor handle_encoding_data vanished")
+    sws = [x for x in walk(f["body"]) if x.get("k") == "switch"]
+    dflt = [stmts for labels, stmts in switch_groups(sws[0]) if "default" in labels]
+    ok = bool(dflt) and _classify_decoder(dflt[0]) == "error"
+    inst.append(("F1:handle_encoding_data", {"default_throws": ok}))
+    if not ok:
+        findings.append({"key": "F1:handle_encoding_data", "where": f["l"], "msg": "an unknown base-type encoding is no longer reported as an error", "detail": None})
+    return inst, findings
+
+
+def f3(prog):
+    from r_scope import switch_groups
+    from r_tables import writer_tables, intval, dom_of
+    inst, findings = [], []
+    # forms
+    f = prog.func("at_value")
+    sw = [x for x in f["body"]["s"] if x.get("k") == "switch"][0]
+    names = _enum_names(prog, "DW_FORM_")
+    seen = set()
+    for labels, stmts in switch_groups(sw):
+        cls = _classify_decoder(stmts)
+        for l in labels:
+            if l == "default":
+                continue
+            v = intval(l)
+            for nm in names.get(v, ["?%s" % v]):
+                seen.add(nm)
+                exp = FORM_CLASS.get(nm)
+                key = "F3:" + nm
+                inst.append((key, {"decoder": cls, "dwarf5_class": exp}))
+                if exp is None:
+                    raise Broken("no DWARF 5 class known to the checker for %s" % nm)
+                if cls == "unknown":
+                    raise Broken("cannot classify what at_value does for %s (unmodelled decoder)" % nm)
+                if cls != exp and cls not in ("diagnostic", "error"):
+                    findings.append({"key": key, "where": "libzwerg/atval.cc:%s" % f["l"].split(":")[-1],
+                                     "msg": "%s is decoded as `%s` but DWARF 5 (7.5.6) makes it class `%s`" % (nm, cls, exp), "detail": None})
+    unl = sorted(n for v in names.values() for n in v if n not in seen)
+    inst.append(("F3:unlisted-forms", {"fall_to_error": unl}))
+    if len(seen) < 40:
+        raise Broken("only %d forms dispatched in at_value (floor 40)" % len(seen))
+    # encodings
+    g = prog.func("(anonymous namespace)::handle_encoding_data")
+    sw = [x for x in walk(g["body"]) if x.get("k") == "switch"][0]
+    names = _enum_names(prog, "DW_ATE_")
+    for labels, stmts in switch_groups(sw):
+        cls = _classify_decoder(stmts)
+        for l in labels:
+            if l == "default":
+                continue
+            for nm in names.get(intval(l), []):
+                exp = ATE_SIGN.get(nm)
+                key = "F5:" + nm
+                inst.append((key, {"decoder": cls, "expected": exp}))
+                if exp is not None and cls != exp:
+                    findings.append({"key": key, "where": "libzwerg/atval.cc:%s" % g["l"].split(":")[-1],
+                                     "msg": "values whose type has encoding %s are decoded as `%s`, expected `%s`" % (nm, cls, exp), "detail": None})
+                if exp is None and cls not in ("not-decoded", "error"):
+                    findings.append({"key": key, "where": "libzwerg/atval.cc:%s" % g["l"].split(":")[-1],
+                                     "msg": "encoding %s (not an integer encoding) is decoded as `%s`" % (nm, cls), "detail": None})
+    # enumerated attributes -> constant family
+    W = writer_tables(prog)
+    h = prog.func("(anonymous namespace)::handle_at_dependent_value")
+    sw = [x for x in h["body"]["s"] if x.get("k") == "switch"][0]
+    names = _enum_names(prog, "DW_AT_")
+    n = 0
+    for labels, stmts in switch_groups(sw):
+        doms = []
+        for s in stmts:
+            for c in calls(s):
+                if c.get("fn") == "atval_unsigned_with_domain":
+                    d = unwrap(c["a"][1])
+                    if isinstance(d, dict) and d.get("k") == "call":
+                        doms.append(d["f"])
+        for l in labels:
+            if l == "default":
+                continue
+            for nm in names.get(intval(l), []):
+                if nm in AT_ENUM_PREFIX:
+                    n += 1
+                    key = "F4:" + nm
+                    pref = [W[d]["prefix"] for d in doms if d in W]
+                    inst.append((key, {"domain": doms, "prefix": pref, "expected_prefix": AT_ENUM_PREFIX[nm]}))
+                    if pref != [AT_ENUM_PREFIX[nm]]:
+                        findings.append({"key": key, "where": "libzwerg/atval.cc:%s" % h["l"].split(":")[-1],
+                                         "msg": "%s values are rendered in constant family %s, expected %s*" % (nm, pref or doms, AT_ENUM_PREFIX[nm]), "detail": None})
+    if n < 10:
+        raise Broken("only %d enumerated attributes dispatched (floor 10)" % n)
+    return inst, findings
+
+
+# fallible libdw/libdwfl/libelf functions -> how failure is reported
+FALLIBLE = {
+    "dwarf_offdie": "null", "dwarf_formref_die": "null", "dwarf_attr": "null", "dwarf_attr_integrate": "null",
+    "dwarf_cu_die": "null", "dwarf_diecu": "null", "dwarf_filesrc": "null", "dwarf_formstring": "null",
+    "dwarf_getabbrev": "null", "dwarf_begin": "null", "dwfl_begin": "null", "dwfl_report_offline": "null",
+    "dwfl_module_getdwarf": "null", "dwfl_module_getelf": "null", "gelf_getehdr": "null", "dwarf_getalt": "null-ok",
+    "dwarf_formudata": "nonzero", "dwarf_formsdata": "nonzero", "dwarf_formaddr": "nonzero", "dwarf_formflag": "nonzero",
+    "dwarf_formblock": "nonzero", "dwarf_getsrcfiles": "nonzero", "dwarf_getlocation_die": "nonzero",
+    "dwarf_getlocation_attr": "nonzero", "dwarf_getlocation_implicit_value": "nonzero", "dwarf_getabbrevattr": "nonzero",
+    "dwarf_macro_opcode": "nonzero", "dwarf_macro_param1": "nonzero", "dwarf_macro_param2": "nonzero", "dwarf_macro_param": "nonzero",
+    "dwfl_report_end": "nonzero",
+    "dwarf_getmacros": "negative", "dwarf_ranges": "negative", "dwarf_nextcu": "negative", "dwarf_child": "negative",
+    "dwarf_siblingof": "negative", "dwarf_getattrs": "negative", "dwarf_getlocations": "negative",
+    "dwarf_getlocation": "negative", "dwfl_getmodules": "negative", "dwfl_module_getsymtab": "negative",
+    "dwarf_getattrcnt": "nonzero", "dwarf_haschildren": "negative", "dwarf_next_unit": "negative",
+}
+E1_EXEMPT = {
+    ("(anonymous namespace)::open_dwfl", "dwfl_getmodules"): "priming pass over the modules; failures resurface when the modules are iterated",
+    ("op_abbrev_die::operate", "dwarf_haschildren"): "called only to force the abbreviation lookup on a DIE already validated by iteration",
+}
+
+
+def e1(prog):
+    inst, findings = [], []
+    n = 0
+    for f in prog.funcs.values():
+        rel = prog.rel(f["file"])
+        if not rel.startswith("libzwerg/") or "/test-" in rel:
+            continue
+        body = f.get("body")
+        if body is None:
+            continue
+        # parent map
+        parent = {}
+
+        def rec(node, par):
+            if isinstance(node, list):
+                for x in node:
+                    rec(x, par)
+                return
+            if not isinstance(node, dict):
+                return
+            parent[id(node)] = par
+            for v in node.values():
+                if isinstance(v, (dict, list)):
+                    rec(v, node)
+        rec(body, None)
+        for i in f.get("inits", []):
+            rec(i.get("init"), None)
+        nodes = list(walk(body)) + [x for i in f.get("inits", []) for x in walk(i.get("init"))]
+        cond_vars = set()
+        for x in nodes:
+            if x.get("k") in ("if", "while", "for", "do", "cond", "switch") and x.get("c") is not None:
+                for y in walk(x["c"]):
+                    if y.get("k") == "ref" and y.get("id") is not None:
+                        cond_vars.add(y["id"])
+            if x.get("k") in ("if", "while") and x.get("var"):
+                cond_vars.add(x["var"]["id"])
+            if x.get("k") == "bin" and x.get("op") in ("==", "!=", "<", ">", "<=", ">="):
+                for y in walk(x):
+                    if y.get("k") == "ref" and y.get("id") is not None:
+                        cond_vars.add(y["id"])
+        for c in nodes:
+            if c.get("k") != "call" or c.get("fn") not in FALLIBLE or c.get("own"):
+                continue
+            n += 1
+            key = "E1:%s:%s@%s" % (f["q"].split("<")[0], c["fn"], c.get("l"))
+            # climb: comparison / condition / negation / assignment to a checked variable / returned / passed on
+            cur = c
+            verdict = None
+            while True:
+                par = parent.get(id(cur))
+                if par is None:
+                    verdict = "discarded"
+                    break
+                k = par.get("k")
+                if k in ("bin",) and par.get("op") in ("==", "!=", "<", ">", "<=", ">="):
+                    verdict = "compared"
+                    break
+                if k == "un" and par.get("op") == "!":
+                    verdict = "compared"
+                    break
+                if k in ("if", "while", "for", "do", "cond", "switch") and par.get("c") is cur:
+                    verdict = "compared"
+                    break
+                if k == "return":
+                    verdict = "returned"
+                    break
+                if k == "asg" and par.get("rhs") is cur:
+                    tgt = unwrap(par["lhs"])
+                    vid = tgt.get("id") if isinstance(tgt, dict) else None
+                    if vid in cond_vars or (isinstance(tgt, dict) and tgt.get("k") == "mem"):
+                        verdict = "assigned-then-checked" if vid in cond_vars else "stored-in-member"
+                    else:
+                        verdict = "assigned-unchecked"
+                    break
+                if "init" in par and par.get("init") is cur and "id" in par:
+                    verdict = "assigned-then-checked" if par["id"] in cond_vars else "assigned-unchecked"
+                    break
+                if k in ("call", "ctor") and cur is not par.get("obj") and any(a is cur for a in par.get("a", [])):
+                    verdict = "passed-on"
+                    break
+                if k in ("block", "decl", "case", "default", "label", "try", "rfor"):
+                    verdict = "discarded"
+                    break
+                if k in ("cast", "ctor", "other") or k is None:
+                    cur = par
+                    continue
+                cur = par
+            base = f["q"].split("<")[0]
+            info = {"call": c["fn"], "at": c.get("l"), "result": verdict}
+            inst.append((key, info))
+            if verdict in ("discarded", "assigned-unchecked"):
+                if (base, c["fn"]) in E1_EXEMPT:
+                    info["exempt"] = E1_EXEMPT[(base, c["fn"])]
+                    continue
+                findings.append({"key": "E1:%s:%s" % (base, c["fn"]), "where": c.get("l"),
+                                 "msg": "%s calls %s and %s its result without testing for the failure value (%s): a libdw error would be silently decoded as data" % (f["q"], c["fn"], "discards" if verdict == "discarded" else "uses", FALLIBLE[c["fn"]]),
+                                 "detail": None})
+    if n < 50:
+        raise Broken("only %d calls to fallible libdw functions found (floor 50)" % n)
+    return inst, findings
